@@ -159,5 +159,24 @@ class FlowFileRoundTrip:
                 back = stored.axes(Axes(case["axes"]))
                 K.ensure_eq("original-representation", back.tensor(), data.numpy(), text=Q18F + " [returns to its original representation]")
                 same_grid(K, "grid", stored.grid(), g, Q18)
+            # the in-memory SimpleITK conversions follow the same convention: sitk() stores world vectors, from_sitk()
+            # reads them as world vectors (for whatever representation the field is converted back to afterwards)
+            im = K.call(f.sitk)
+            if K.ensure_returns(im, text=Q18F + " [FlowField.sitk()]"):
+                via = K.call(FlowField.from_sitk, im)
+                if K.ensure_returns(via, text=Q18F + " [FlowField.from_sitk()]"):
+                    K.ensure_eq("sitk-original-representation", via.axes(Axes(case["axes"])).tensor(), data.numpy(),
+                                text=Q18F + " [sitk() / from_sitk(): returns to its original representation]")
+                    same_grid(K, "sitk-flow-grid", via.grid(), g, Q18S)
+            try:
+                import SimpleITK as sitk
+
+                raw = sitk.ReadImage(path)
+            except Exception as ex:  # noqa: BLE001
+                raw = Raised(ex, "", "SimpleITK.ReadImage")
+            if K.ensure_returns(raw, text=Q18S + " [flow file read by SimpleITK]"):
+                via2 = K.call(FlowField.from_sitk, raw)
+                if K.ensure_returns(via2):
+                    K.ensure_eq("file-via-sitk", via2.axes(Axes(case["axes"])).tensor(), data.numpy(), text=Q18S + " [flow file read by SimpleITK and converted with from_sitk()]")
         finally:
             shutil.rmtree(d, ignore_errors=True)
